@@ -365,7 +365,7 @@ func traverseAST(node *sitter.Node, sourceCode []byte, graph *CodeGraph, current
 		if conditionNode != nil {
 			forNode.Condition = &model.Expr{Node: *conditionNode, NodeString: conditionNode.Content(sourceCode)}
 		}
-		incrementNode := node.ChildByFieldName("increment")
+		incrementNode := node.ChildByFieldName("update") // the grammar's name for the third clause
 		if incrementNode != nil {
 			forNode.Increment = &model.Expr{Node: *incrementNode, NodeString: incrementNode.Content(sourceCode)}
 		}
